@@ -25,6 +25,10 @@ theorem processed_mem_doneIdxs (ht : Bool) :
       simp only [processed, Bool.false_eq_true, if_false] at h
       exact processed_mem_doneIdxs false rest (left + 1) i h
   | .died w :: rest, left + 1, i, h => by simp [processed] at h
+  | .bystander p :: rest, left + 1, i, h => by
+    rw [doneIdxs_bystander]
+    simp only [processed] at h
+    exact processed_mem_doneIdxs ht rest (left + 1) i h
 
 theorem processed_of_no_interruption (ht : Bool) :
     ∀ (evs : List Event) (left : Nat), interruption (ε := ε) ht left evs = none →
@@ -43,6 +47,9 @@ theorem processed_of_no_interruption (ht : Bool) :
       simp only [processed, Bool.false_eq_true, if_false, doneIdxs_timeout,
         processed_of_no_interruption false rest (left + 1) h]
   | .died w :: rest, left + 1, h => by simp [interruption] at h
+  | .bystander p :: rest, left + 1, h => by
+    simp only [interruption] at h
+    simp only [processed, doneIdxs_bystander, processed_of_no_interruption ht rest (left + 1) h]
 
 /-- pigeonhole: `m` distinct numbers below `m` are all of them -/
 theorem perm_range_of_nodup (m : Nat) (l : List Nat) (hnd : l.Nodup) (hlt : ∀ i ∈ l, i < m)
@@ -102,7 +109,7 @@ theorem poolRun_acceptable [DecidableEq ε] [DecidableEq β] (f : α → Except 
         · exact List.Nodup.sublist (List.take_sublist _ _) hnd
         · intro i hi; exact hlt i (List.mem_of_mem_take hi)
         · rw [List.length_take]; omega
-      obtain ⟨_, hflat, _, _, _⟩ := init_facts (ε := ε) (β := β) f args workers
+      obtain ⟨_, hflat, _, _, _⟩ := init_facts (comprehension f) args workers
       have hout := outcome_complete f _ _ hperm
       rw [hflat, comprehension_eq_sequential] at hout
       cases hseq : sequential f args with
